@@ -20,7 +20,11 @@ claim("C17",
       "Static: NSEC3.Cover/Match decided for all 13 orderings of (name hash, owner hash, next hash) by abstract interpretation of the CFG over the finite ordering domain, plus zone guards; case-independence and digest-input order of HashName/ToDS; digest-type table; dnskeyWireFmt conformance and fill sites; private-key writer/reader field agreement; RSA size limits of decoder vs generator. Numeric equality of key tags/digests/hashes with the RFCs, key generation and validity arithmetic are not decided (values/cryptography).",
       STATIC_NOTE, "abstract interpretation over total preorders (E6); SSA guards; table agreement")
 
+claim("C13",
+      "Static lockset discipline and start/stop ordering of server.go on every path and (thorough) every build configuration: started/conns only under Server.lock (write lock for writes), acquire/release pairing incl. unlockOnce, deadline re-arm only under RLock on the started edge, already-started/not-started tests before any effect, started=false before unblocking readers, drain wait before return, wg.Add before go and wg.Done on all paths, close(shutdown) after wg.Wait. These are necessary structural conditions; the behavioural statement over all interleavings (graceful drain, no leak, race freedom) is not decided.",
+      STATIC_NOTE, "must-hold lockset dataflow on SSA CFG; edge-dominance guards; must-pass")
+
 _pending = "rules for this property are designed (DESIGN.md §4) but not implemented yet; not claimed until they run"
-for p in ["C02","C03","C05","C06","C07","C09","C10","C11","C12","C13","C14","C15","C16","C18"]:
+for p in ["C02","C03","C05","C06","C07","C09","C10","C11","C12","C14","C15","C16","C18"]:
     na(p, _pending)
 na("C19", "every clause is an equality between index arithmetic on a runtime string and its label sequence; no pairing/ownership/ordering/table structure to decide statically (DESIGN.md §8)")
